@@ -3,14 +3,14 @@ C18 — Generated code is unsafe-free and unsound client programs do not compile
 This is the property least suited to the technique: two thirds of it is about rustc.
  (a) unsafe-freedom of the expansions: decided universally over the template-token table
      GENERATED from macros/src/generate/*.rs on every run (every token that occurs inside a
-     `quote!`/`quote_spanned!`); tie: harness/rt and harness/rustc compile the real
+     `quote!`/`quote_spanned!`); tie: harness/rt and tools/rustc_probes.py compile the real
      expansions under `#![forbid(unsafe_code)]`.
  (c) auto traits: decided on the model of the structural rule (Gecs/Model/Env.lean) over the
      field table GENERATED from the struct definitions and the two `unsafe impl`s; tie:
-     rustc probes in harness/rustc.
+     rustc probes of tools/rustc_probes.py.
  (b) borrow envelope: decided over the API signature table GENERATED from src/traits.rs with
      ONE modelled rule of the borrow checker, for the full product holders x structural
-     operations; tie: harness/rustc compiles one minimal program per pair, each with a
+     operations; tie: tools/rustc_probes.py compiles one minimal program per pair, each with a
      sound twin that must compile.
  Cannot be done here: a proof that rustc's borrow checker rejects EVERY unsound client
  program would need a formal semantics of Rust's type system.
@@ -102,7 +102,7 @@ theorem C18_twins_ok :
 siblings, all `unsafe { transmute }`): the table GENERATED from the impl headers of src/** says
 for each whether the produced reference carries the consumed reference's lifetime.  All must:
 an untied conversion lets safe code keep a handle reference across a structural change.
-Tie: harness/rustc compiles, per generated row, a program stretching the result to `'static`
+Tie: tools/rustc_probes.py compiles, per generated row, a program stretching the result to `'static`
 (must be rejected) and its twin (must compile). -/
 theorem C18_reference_conversions_tied : ∀ r ∈ Gen.refImpls, r.2 = true := by
   decide
